@@ -155,3 +155,23 @@ fn dbg_write_min() {
     core::mem::forget(r);
     core::mem::forget(fm);
 }
+
+// C06: certificate_files_exists is true iff BOTH the private-key file and the certificate file exist
+// (and their paths can be built); account_files_exists iff the account file exists.
+#[kani::proof]
+#[kani::stub(std::hash::RandomState::new, rs_stub)]
+#[kani::stub(alloc::fmt::format, crate::verif_env::fmt_stub)]
+#[kani::unwind(2)]
+fn c06_files_exist_all_not_any() {
+    let e = env();
+    e.fs_type_exists = kani::any();
+    e.fs_path_error = kani::any();
+    let fm = mk_fm(0o600, 0o644);
+    let both = certificate_files_exists(&fm);
+    let e = env();
+    let want = e.fs_type_exists[1] && !e.fs_path_error[1] && e.fs_type_exists[2] && !e.fs_path_error[2];
+    assert!(both == want, "C06: a certificate counts as installed only if BOTH the key file and the certificate file exist");
+    let acc = account_files_exists(&fm);
+    assert!(acc == (e.fs_type_exists[0] && !e.fs_path_error[0]), "C11/C06: account file existence");
+    core::mem::forget(fm);
+}
